@@ -22,6 +22,8 @@
 (*   gnb_eps_last_batch      GaussianNb::fit_with subtracts / adds the     *)
 (*                           smoothing term of the *current batch*         *)
 (*   mnb_alpha0_predict_nan  MultinomialNb::predict panics (NaN = 0 * ln 0)*)
+(*   kmeans_para_init_unreproducible  KMeansInit::KMeansPara: same seed,   *)
+(*                           different initial centroids on another run    *)
 (***************************************************************************)
 EXTENDS Incremental, TraceIO
 
@@ -277,8 +279,7 @@ KmRepeatOk == Ev.dig = Ev.dig2 /\ Ev.ok = Ev.ok2
 
 \* the successor states of the k-means specification that explain the event
 KmGood ==
-  IF ~KmRepeatOk THEN {}
-  ELSE UNION {{st2 \in {KmFold(st, In.batches[pos + 1], asg, In.k, D) : asg \in KmAssigns(st, In.batches[pos + 1], 1, In.k, D)} :
+  UNION {{st2 \in {KmFold(st, In.batches[pos + 1], asg, In.k, D) : asg \in KmAssigns(st, In.batches[pos + 1], 1, In.k, D)} :
                  KmCountsOk(st2) /\ KmCentOk(st2) /\ KmFlagOk(st, st2)} :
               st \in (IF pos = 0 THEN KmInits ELSE {kst})}
 
@@ -410,10 +411,14 @@ Step ==
             /\ pos' = pos + 1 /\ prev' = (IF whole THEN prev ELSE Ev.classes)
             /\ e' = e + 1 /\ UNCHANGED <<c, dvars, kst>>
      ELSE IF Ev.ev = "km" THEN
-       LET good == IF Ev.after = pos + 1 THEN KmGood ELSE {} IN
-       IF good = {} THEN Reject
+       LET good == IF Ev.after = pos + 1 THEN KmGood ELSE {}
+           \* named deviation: the k-means|| initialiser draws from per-thread generators, so the same seed
+           \* can select other initial centroids on a re-run (each run still follows the recurrence)
+           paradev == ~KmRepeatOk /\ In.init = "para" /\ "kmeans_para_init_unreproducible" \in Devs IN
+       IF good = {} \/ ~(KmRepeatOk \/ paradev) THEN Reject
        ELSE /\ kst' \in good /\ pos' = pos + 1
-            /\ e' = e + 1 /\ UNCHANGED <<c, dvars, prev, used2>>
+            /\ used2' = (IF paradev THEN used2 \cup {"kmeans_para_init_unreproducible"} ELSE used2)
+            /\ e' = e + 1 /\ UNCHANGED <<c, dvars, prev>>
      ELSE IF Ev.ev = "ft0" THEN
        IF ~FtSnapOk(Ev) THEN Reject
        ELSE prev' = Ev /\ e' = e + 1 /\ UNCHANGED <<c, dvars, pos, kst, used2>>
